@@ -109,7 +109,17 @@ fn opt_bytes(v: &Value) -> Option<Vec<u8>> {
 /// Deterministic picture content: byte i of a picture with tag t. Full of protocol look-alikes.
 pub fn pic_bytes(len: usize, tag: u8) -> Vec<u8> {
     const PAT: &[u8] = b"OK\nbinary: 3\nACK [5@0] {} x\nlist_OK\n\0\xff";
-    (0..len).map(|i| if (i / PAT.len()) % 3 == 2 { (i as u8).wrapping_mul(31).wrapping_add(tag) } else { PAT[i % PAT.len()] ^ (tag & 0) }).collect()
+    (0..len)
+        .map(|i| {
+            if i == 0 {
+                tag
+            } else if (i / PAT.len()) % 3 == 2 {
+                ((i * 31 + tag as usize) % 256) as u8
+            } else {
+                PAT[i % PAT.len()]
+            }
+        })
+        .collect()
 }
 
 fn parse_cfg(c: &Value) -> (SrvCfg, Value) {
@@ -186,7 +196,7 @@ impl Driver {
         let done2 = done.clone();
         let started = Arc::new(Mutex::new(false));
         let started2 = started.clone();
-        let uri = st["uri"].as_str().unwrap_or("song.flac").to_string();
+        let uri = format!("{}.flac", req_id(c, n, None));
         let handle = tokio::spawn(async move {
             let specs: Vec<Value> = cmds
                 .iter()
@@ -471,7 +481,7 @@ pub fn run_one(run: &Value) -> Vec<Value> {
         log(&mm, json!({"e": "drain"}));
         let mut stable = 0;
         let mut rounds = 0;
-        while stable < 2 && rounds < 40 {
+        while stable < 2 && rounds < 3000 {
             rounds += 1;
             let before = mm.lock().unwrap().log.len();
             d.batch(&[json!({"op": "deliver"})]).await;
